@@ -1579,6 +1579,93 @@ def r13_range_unit_whole(run):
                  runtime_witness='Range: items=0-1 is answered with a slice of the file')
 
 
+# ---------------------------------------------------------------------------
+# R14 a suffix range selects at least one byte
+# ---------------------------------------------------------------------------
+
+def r14_suffix_range_is_negative(run):
+    """`Request.range` hands the static route (first, last); `_set_range` tells the suffix form `-N` ("the last N bytes")
+    from `first-` only by first < 0 (the assumption stated in check()).  So on the branch of the parser where nothing
+    stands in front of the "-", every pair that is RETURNED has a strictly negative first member - for every numeric
+    spelling of the text behind the "-", partitioned into the cells {no sign, "+", "-"} x {zero, positive}: `-0` / `-00`
+    select no byte and must be refused (they raise today: 400), `--5` likewise; the plain `-N` with N > 0 is accepted.
+    Decided by abstract evaluation of the branch over the sign domain (c16_helpers.SuffixBranchEval), whatever the
+    shape of the guard (post-conversion `first_num >= 0`, `int(last) <= 0`, ...).
+    W: Range: bytes=-0 is answered 206 with Content-Range 0-(size-1)/size and the whole file (the pair (0, -1) is the
+    pair of `bytes=0-`)."""
+    from .c16_helpers import SUFFIX_CELLS, SignInt, SuffixBranchEval
+    p = run.project
+    funcs: List[Func] = []
+    for cq in RANGE_OWNERS:
+        p.cls(cq)
+        g = p.lookup_method(cq, 'range')
+        if g is None:
+            raise AnchorError('%s.range not found' % cq)
+        if g not in funcs:
+            funcs.append(g)
+    rw = 'Range: bytes=-0 on a 16-byte file: 206 Partial Content, Content-Range: bytes 0-15/16 and all 16 bytes (expected: the 400 of a range that selects nothing)'
+    for f in funcs:
+        cfg = cfg_of(f, p)
+        run.use_cfg(cfg)
+        split = None
+        for n in cfg.live_nodes():
+            st = n.ast if n.kind == 'stmt' else None
+            if not (isinstance(st, ast.Assign) and len(st.targets) == 1 and isinstance(st.targets[0], (ast.Tuple, ast.List))):
+                continue
+            v = st.value
+            if isinstance(v, ast.Call) and isinstance(v.func, ast.Attribute) and v.func.attr in ('partition', 'split') and v.args \
+                    and isinstance(v.args[0], ast.Constant) and v.args[0].value == '-' and all(isinstance(x, ast.Name) for x in st.targets[0].elts):
+                names = [x.id for x in st.targets[0].elts]
+                want = 3 if v.func.attr == 'partition' else 2
+                if len(names) != want or (want == 2 and not (len(v.args) == 2 and isinstance(v.args[1], ast.Constant) and v.args[1].value == 1)):
+                    raise UnknownIdiom('%s: %s is not read as (first, [sep,] last)' % (f.qual, short(st, 80)))
+                if split is not None:
+                    raise UnknownIdiom('%s: the range spec is split at "-" more than once' % f.qual)
+                split = (n, names)
+        if split is None:
+            raise AnchorError('%s: the statement that splits the range spec at "-" (`first, sep, last = <spec>.partition("-")`) was not found' % f.qual)
+        node, names = split
+        nxt = [y for (y, l) in cfg.succ[node.id] if l != 'exc']
+        if len(nxt) != 1:
+            raise UnknownIdiom('%s: control flow behind %s' % (f.qual, short(node.ast, 60)))
+        accepted = {}
+        for cell in SUFFIX_CELLS:
+            env = {names[0]: '', names[-1]: cell}
+            if len(names) == 3:
+                env[names[1]] = '-'
+            outs = SuffixBranchEval(p, f, cfg, nxt[0], env).run()
+            bad, unsure, good = [], [], []
+            for kind, val, st, und in outs:
+                if kind != 'return':
+                    continue
+                first = val[0] if isinstance(val, tuple) and len(val) == 2 else None
+                neg = (isinstance(first, SignInt) and first.sign == 'neg') or (isinstance(first, int) and not isinstance(first, bool) and first < 0)
+                known = isinstance(first, SignInt) or (isinstance(first, int) and not isinstance(first, bool))
+                if neg:
+                    good.append((st, und))
+                elif known and not und:
+                    bad.append((first, st))
+                else:
+                    unsure.append((first, st, und))
+            accepted[(cell.lead, cell.mag)] = bool(good) and not any(u for _s, u in good)
+            if unsure and not bad:
+                first, st, und = unsure[0]
+                raise UnknownIdiom('%s: for %s the parser may return through `%s` with a first member of %r%s, which the sign domain does not decide'
+                                   % (f.qual, cell.label(), short(st) if st is not None else 'the end of the function', first,
+                                      ' (undecided: %s)' % '; '.join(und) if und else ''))
+            what = ('Range suffix form, text behind the "-" %s: every pair the parser returns has a strictly negative first member (`-N` is the last N bytes, '
+                    'N > 0; a suffix of length zero and a doubly signed one are refused)' % cell.label())
+            if bad:
+                for first, st in bad:
+                    run.fail(what, f, '%s [%s]' % (short(st) if st is not None else 'end of function', cell.label()), where=f.loc(st) if st is not None else f.loc(),
+                             witness=['%s: first member %r' % (cell.label(), first)], runtime_witness=rw)
+            else:
+                run.ok(what, f.loc(), '%s: suffix cell %s/%s' % (f.name, cell.lead, cell.mag))
+        run.check(accepted.get(('digit', 'pos'), False), 'Range suffix form `-N` with N > 0 (no sign of its own) is accepted on a path the evaluation decides completely',
+                  f, 'suffix range -N accepted', where=f.loc(node.ast),
+                  runtime_witness='Range: bytes=-5 is answered 400 instead of 206 with the last five bytes')
+
+
 def check(run):
     run.assume('POSIX path semantics: os.path.sep == "/"; os.path.normpath leaves ".." only as leading components; '
                'os.path.join(D, x) == D + "/" + x for relative x (trusted base of the containment lemma)')
@@ -1604,7 +1691,7 @@ def check(run):
     run.rule('R8', r8_opened_is_proved, 'the string opened inside _open_file is its parameter unchanged (the value the containment lemma was proved for)', floor=1)
     run.rule('R9', r9_validator_whole_seconds, 'Last-Modified and the instant compared with If-Modified-Since are the mtime truncated to whole seconds', floor=3)
     run.rule('R10', r10_range_bounds_numeric, 'Request.range orders the bounds of a Range spec as int()-converted numbers, never as the text pieces '
-             '(establishes first <= last, which _set_range relies on)', floor=2)
+             '(establishes first <= last, which _set_range relies on)', floor=1)
     run.assume('ASGI: scope["path"] is decoded by the server (ASGI spec: percent-decoded, UTF-8 with undecodable bytes replaced)')
     run.rule('R11', r11_undecodable_path_replaced, 'undecodable request-path bytes reach the static route as U+FFFD, which its disallowed-characters test '
              'rejects (WSGI constructor evaluated on sample PATH_INFO values)', floor=8)
@@ -1613,3 +1700,5 @@ def check(run):
     run.rule('R12', _c09.r6_range, 'Range decision table: first-last / first- / -suffix offsets, a one-byte range is valid (shared with C09 R6)', floor=10)
     run.rule('R13', r13_range_unit_whole, "Request.range_unit is the whole text before the first '=' (a constant shortcut only behind a test that includes the "
              "separator) and the static route compares it whole with 'bytes'", floor=3)
+    run.rule('R14', r14_suffix_range_is_negative, 'Request.range: on the suffix branch (nothing in front of the "-") every returned pair has first < 0 for every numeric '
+             'spelling of the suffix length - sign cells {none, +, -} x {zero, positive}; `-0` is refused, `-N` is accepted', floor=7)
